@@ -72,6 +72,8 @@ pub struct Recorder<'a> {
     next_cli: i64,
     next_srv: i64,
     pub limits: (i64, i64, i64, i64, i64),
+    /// percentage of steps that use a parameter longer than 65535 bytes (C12)
+    pub long_pct: u64,
 }
 
 impl<'a> Recorder<'a> {
@@ -94,6 +96,7 @@ impl<'a> Recorder<'a> {
             next_cli: 1,
             next_srv: 1,
             limits: (4, 16, 16, 32, 64),
+            long_pct: 0,
         }
     }
     pub fn fresh_tape(&mut self) -> i64 {
@@ -275,6 +278,37 @@ impl<'a> Recorder<'a> {
 
     // ---- a random history ----------------------------------------------------------------
     /// Random multi-user history with an adversarial network: `steps` protocol steps.
+    /// C15 driver: instance matrix incl. failing instances (ksffail) on real KSFs
+    pub fn ksf_segment(&mut self, rng: &mut Prng) {
+        let s = self.setup_new();
+        let argon = self.w.suite.ksf_kind() == "argon2";
+        let insts: Vec<i64> = if argon { vec![0, 1, 2] } else { vec![0, 1, 2, 3] };
+        for (u, kreg) in insts.iter().enumerate() {
+            let cid = 10 + u as i64;
+            let Some(rec) = self.register(s, 1, cid, 0, 0, *kreg) else { continue };
+            for klog in &insts {
+                if argon && rng.chance(40) {
+                    continue;
+                }
+                let c = self.cli_start(1);
+                let req = self.clis.last().unwrap().req;
+                if let Some((j, resp)) = self.srv_start(s, Some(rec), req, cid, 0, 0, 0, Some(c), false) {
+                    let fail = !argon && rng.chance(15); // only the instrumented KSF can be made to fail
+                    let (r, fin) = self.cli_finish(c, 1, resp, 0, 0, 0, *klog, fail);
+                    if let (Res::Ok, Some(f)) = (r, fin) {
+                        self.srv_finish(j, f);
+                    }
+                }
+            }
+        }
+        // a failing KSF at registration
+        let reg = self.reg_start(1);
+        let req = self.regs.last().unwrap().req;
+        if let Some(resp) = self.sreg_start(s, req, 15, reg) {
+            self.reg_finish(reg, 1, resp, 0, 0, 2, !argon);
+        }
+    }
+
     pub fn random_segment(&mut self, rng: &mut Prng, steps: usize, adversarial_pct: u64) {
         let ns = 1 + rng.below(2);
         for _ in 0..ns {
@@ -291,8 +325,16 @@ impl<'a> Recorder<'a> {
             let s = self.setups[rng.below(self.setups.len())];
             let pw = pws[rng.below(pws.len())];
             let cid = cids[u % cids.len()];
-            let idu = idsl[rng.below(idsl.len())];
-            let ids = idsl[rng.below(idsl.len())];
+            let mut idu = idsl[rng.below(idsl.len())];
+            let mut ids = idsl[rng.below(idsl.len())];
+            let mut pw = pw;
+            if rng.chance(self.long_pct) {
+                match rng.below(3) {
+                    0 => idu = -93,
+                    1 => ids = -94,
+                    _ => pw = 94,
+                }
+            }
             if self.register(s, pw, cid, idu, ids, 0).is_some() {
                 users.push((pw, cid, s, idu, ids));
             }
@@ -318,12 +360,19 @@ impl<'a> Recorder<'a> {
                         };
                         let u = users[fi.min(users.len() - 1)];
                         let s = if adv && rng.chance(20) { self.setups[rng.below(self.setups.len())] } else { u.2 };
-                        let ctx = ctxs[rng.below(ctxs.len())];
-                        let (idu, ids) = if adv && rng.chance(40) {
+                        let mut ctx = ctxs[rng.below(ctxs.len())];
+                        let (mut idu, mut ids) = if adv && rng.chance(40) {
                             (idsl[rng.below(3)], idsl[rng.below(3)])
                         } else {
                             (u.3, u.4)
                         };
+                        if rng.chance(self.long_pct) {
+                            match rng.below(3) {
+                                0 => ctx = -92,
+                                1 => idu = -93,
+                                _ => ids = -94,
+                            }
+                        }
                         self.srv_start(s, rec, c.req, cid, ctx, idu, ids, Some(c.id), false);
                     }
                 }
@@ -353,7 +402,16 @@ impl<'a> Recorder<'a> {
                         let ctx = ctxs[rng.below(ctxs.len())];
                         let u = users.iter().find(|u| u.0 == c.pw).copied().unwrap_or(users.first().copied().unwrap_or((1, 10, 1, 0, 0)));
                         let (idu, ids) = if adv && rng.chance(30) { (idsl[rng.below(3)], idsl[rng.below(3)]) } else { (u.3, u.4) };
-                        let pw = if adv && rng.chance(20) { pws[rng.below(3)] } else { c.pw };
+                        let mut pw = if adv && rng.chance(20) { pws[rng.below(3)] } else { c.pw };
+                        let (mut ctx, mut idu, mut ids) = (ctx, idu, ids);
+                        if rng.chance(self.long_pct) {
+                            match rng.below(4) {
+                                0 => ctx = -92,
+                                1 => idu = -93,
+                                2 => ids = -94,
+                                _ => pw = 94,
+                            }
+                        }
                         self.cli_finish(c.id, pw, resp, ctx, idu, ids, 0, false);
                     }
                 }
